@@ -182,6 +182,13 @@ func (g *c05Gen) rangeStmt(depth int, scope []string) []*mj.Node {
 	case 2:
 		n.Names = []string{kn, vn}
 	}
+	discard := -1
+	if decl && form == 2 && g.n(0, 3, "discardSlot") == 0 {
+		// '_' discards the key or the value; '.' keeps the parent context either way (two-variable form)
+		discard = g.n(0, 1, "whichDiscard")
+		n.Names[discard] = "_"
+		g.labels[fmt.Sprintf("range-discard-slot:%d", discard)] = true
+	}
 	if !decl {
 		for _, nm := range n.Names {
 			pre = append(pre, mj.Let(nm, mj.Str("init")))
@@ -201,8 +208,19 @@ func (g *c05Gen) rangeStmt(depth int, scope []string) []*mj.Node {
 			inner = append(inner, ".")
 		}
 	case 2:
-		inner = []string{kn, vn}
-		body = append(body, mj.Text("k="), mj.Print(mj.Var(kn)), mj.Text(",v="), mj.Print(mj.Var(vn)))
+		inner = []string{}
+		if discard != 0 {
+			inner = append(inner, kn)
+			body = append(body, mj.Text("k="), mj.Print(mj.Var(kn)))
+		}
+		if discard != 1 {
+			inner = append(inner, vn)
+			body = append(body, mj.Text(",v="), mj.Print(mj.Var(vn)))
+		}
+		if discard >= 0 {
+			inner = append(inner, ".")
+			body = append(body, mj.Text(",.="), mj.Print(mj.Dot()))
+		}
 	}
 	wasMulti := g.inMulti
 	if s.multi {
